@@ -300,10 +300,17 @@ def refusal_case(fmt, mode, kind, first, second, other_atoms, k, seed, d):
         f = open_writer(fmt, path, "w")
         write_batch(fmt, f, t, 0, k, first[0], first[1])
     raised = None
+    again = False
     try:
         write_batch(fmt, f, t2 if other_atoms else t, k, k + 1, second[0], second[1])
     except Exception as e:
         raised = e
+        # a refusal must not change what the file is: the same ragged write, tried once more, has to be refused again
+        try:
+            write_batch(fmt, f, t2 if other_atoms else t, k, k + 1, second[0], second[1])
+            again, raised = True, None
+        except Exception:
+            pass
     finally:
         try:
             f.close()
@@ -315,6 +322,8 @@ def refusal_case(fmt, mode, kind, first, second, other_atoms, k, seed, d):
             after = {"loads": True, "n_frames": got["n_frames"], "time": got["time"], "cell": None if got["L"] is None else got["L"]}
         except Exception as e:
             after = {"loads": False, "error": f"{type(e).__name__}: {str(e)[:120]}"}
+        if again:
+            after["accepted_only_when_repeated_after_a_refusal"] = True
         return "accepted", after
     try:
         got = fields(load(fmt, path, t.topology))
@@ -342,6 +351,8 @@ def check_refusal(chk, tier, seed):
                             if status == "first-error":
                                 chk.observe(f"first (accepted) write raises [{CLASSNAME[fmt]}; {first}]", {**inp, "error": detail})
                             elif status == "accepted":
+                                if isinstance(detail, dict) and detail.get("accepted_only_when_repeated_after_a_refusal"):
+                                    wc += ":second-attempt-after-a-refusal"
                                 chk.fail("ragged-write-accepted", wc,
                                          f"{fmt}: after {k} accepted frame(s) with (cell,time)={first}, a write with {kind} was accepted without error "
                                          f"(mode={mode}); reload afterwards: {detail}", inp, observed=detail, expected="an exception")
